@@ -13,7 +13,25 @@ from dst import preempt
 from dst.workload import tasktree
 
 
+# Crash-point sweeps (C14): run indices are grouped into families of
+# FAMILY[tier] consecutive indices.  All members of a family share the 36
+# high bits of their run seed (the family id); the low 12 bits are the
+# member number.  A family that its own PRNG declares a *sweep family*
+# keeps workload, topology, policy and scheduler seed fixed and lets the
+# member number enumerate (victim, crash step); the other families use the
+# whole seed as entropy, i.e. are independent samples as before.
+SWEEP_PROPS = {'C14'}
+FAMILY = {'quick': 256, 'thorough': 1024}
+P_SWEEP_FAMILY = 0.4
+
+
 def run_seed(verif_seed: int, prop: str, tier: str, i: int) -> int:
+    if prop in SWEEP_PROPS:
+        fam_size = FAMILY.get(tier, 256)
+        h = hashlib.sha256(
+            f'{verif_seed}/{prop}/{tier}/family{i // fam_size}'.encode()
+        ).digest()
+        return (int.from_bytes(h[:6], 'big') >> 12 << 12) | (i % fam_size)
     h = hashlib.sha256(f'{verif_seed}/{prop}/{tier}/{i}'.encode()).digest()
     return int.from_bytes(h[:6], 'big')
 
@@ -354,6 +372,51 @@ def gen_c14(rng: random.Random, tier: str) -> dict:
     }
 
 
+def gen_c14_sweep(frng: random.Random, tier: str, member: int) -> dict:
+    """One member of a sweep family: everything but the crash point comes
+    from the family PRNG, so all members replay the same schedule up to
+    their crash point; the member number enumerates (victim, step)."""
+    big = tier == 'thorough'
+    topo = gen_topo(frng, p_attached=0.5)
+    ncl = 1 if topo['kind'] == 'attached' else frng.choice([1, 1, 2])
+    clients = []
+    for ci in range(ncl):
+        prog = tasktree.gen_program(
+            frng, max_nodes=frng.choice([6, 12] + ([25] if big else [])),
+            max_depth=frng.randint(2, 4), max_fanout=frng.randint(2, 4),
+            id_base=10000 * ci)
+        if frng.random() < 0.6:
+            script = [{'op': 'compile', 'prog': prog}]
+        else:
+            script = [{'op': 'submit', 'as': 't0', 'prog': prog},
+                      {'op': 'result', 't': 't0'}]
+        clients.append({'script': script})
+    funcs = preempt.WORKER_FUNCS + preempt.SERVER_FUNCS
+    policy = swarm_policy(frng, topo, funcs, p_preempt=0.4)
+    nw = len(worker_names(topo))
+    victims = [{'kind': 'worker', 'index': k} for k in range(nw)]
+    if topo['kind'] == 'detached':
+        victims += [{'kind': 'manager', 'index': k}
+                    for k in range(len(topo['managers']))]
+    frng.shuffle(victims)
+    victims = victims[:2]
+    stride = frng.choice([1, 2]) if big else frng.choice([3, 5, 8])
+    offset = frng.randrange(stride)
+    kind = 'sever' if frng.random() < 0.2 else 'crash'
+    v = victims[member % len(victims)]
+    n = 1 + offset + (member // len(victims)) * stride
+    return {
+        'topo': topo,
+        'clients': clients,
+        'policy': policy,
+        'faults': [{'kind': kind, 'victim': v,
+                    'trigger': {'type': 'steps_after_first_op', 'n': n},
+                    'lose_tail': False}],
+        'sweep': {'member': member, 'victims': len(victims),
+                  'stride': stride, 'step': n},
+    }
+
+
 # ------------------------------------------------------------------- C11
 def gen_c11(rng: random.Random, tier: str) -> dict:
     from dst.workload import passes as P
@@ -534,8 +597,17 @@ GENS = {
 
 
 def gen(prop: str, tier: str, seed: int) -> dict:
-    rng = random.Random(repr(('workload', prop, seed)))
-    scn = GENS[prop](rng, tier)
+    scn = None
+    if prop in SWEEP_PROPS:
+        fam = seed >> 12
+        frng = random.Random(repr(('family', prop, fam)))
+        if frng.random() < P_SWEEP_FAMILY:
+            scn = gen_c14_sweep(frng, tier, seed & 0xfff)
+            scn['sweep']['family'] = fam
+            scn['sched_seed'] = fam
+    if scn is None:
+        rng = random.Random(repr(('workload', prop, seed)))
+        scn = GENS[prop](rng, tier)
     scn['seed'] = seed
     scn['prop'] = prop
     scn.setdefault('engine', 'simrt')
